@@ -37,6 +37,29 @@ static void dump_language(const TSLanguage *L) {
     printf("state %u %u %u %u %u\n", s, (unsigned)m.lex_state, (unsigned)m.external_lex_state,
            (unsigned)m.reserved_word_set_id,
            (unsigned)(L->abi_version >= LANGUAGE_VERSION_WITH_PRIMARY_STATES ? L->primary_state_ids[s] : s));
+    // the RAW content of this state's row, not decoded by the runtime: a large state's row of
+    // `parse_table`, or a small state's record of `small_parse_table` (group count, then per group:
+    // value, symbol count, symbols).  The Lean side decodes it by its own model of the format and
+    // compares every cell with what `ts_language_lookup` returns (`v` lines).
+    if (s < L->large_state_count) {
+      printf("rawL %u", s);
+      for (uint32_t y = 0; y < L->symbol_count; y++) printf(" %u", (unsigned)L->parse_table[s * L->symbol_count + y]);
+      printf("\n");
+    } else {
+      const uint16_t *d = &L->small_parse_table[L->small_parse_table_map[s - L->large_state_count]];
+      uint16_t gc = *d;
+      printf("rawS %u %u", s, (unsigned)gc);
+      d++;
+      for (unsigned i = 0; i < gc; i++) {
+        uint16_t val = *(d++), cnt = *(d++);
+        printf(" %u %u", (unsigned)val, (unsigned)cnt);
+        for (unsigned j = 0; j < cnt; j++) printf(" %u", (unsigned)*(d++));
+      }
+      printf("\n");
+    }
+    printf("v %u", s);
+    for (uint32_t y = 0; y < L->symbol_count; y++) printf(" %u", (unsigned)ts_language_lookup(L, (TSStateId)s, (TSSymbol)y));
+    printf("\n");
     for (uint32_t y = 0; y < L->symbol_count; y++) {
       uint16_t v = ts_language_lookup(L, (TSStateId)s, (TSSymbol)y);
       if (!v) continue;
